@@ -375,7 +375,7 @@ func checkTextAfterStartAction(p *Program, r *Report, urlRule, enumRule string) 
 					}
 				case token.ADD:
 					// attr.value + text, with nothing static seen since the action
-					if isAttrValueLoad(x.X) && x.Y == ssa.Value(textPrm) {
+					if emptyUnderAssumption(x.X) && x.Y == ssa.Value(textPrm) {
 						env[x] = Term{Param: 0}
 					}
 				}
@@ -548,3 +548,24 @@ func checkTextAfterStartAction(p *Program, r *Report, urlRule, enumRule string) 
 }
 
 var _ = constant.MakeBool
+
+// emptyUnderAssumption: the value is attr.value (empty under the rule's assumption "nothing static was seen since
+// the action"), the empty string, or a merge of the two (the validator may drop the recorded value when it is
+// ambiguous).
+func emptyUnderAssumption(v ssa.Value) bool {
+	if isAttrValueLoad(v) {
+		return true
+	}
+	if k, ok := constString(v); ok && k == "" {
+		return true
+	}
+	if ph, ok := v.(*ssa.Phi); ok {
+		for _, e := range ph.Edges {
+			if e == v || !emptyUnderAssumption(e) {
+				return false
+			}
+		}
+		return len(ph.Edges) > 0
+	}
+	return false
+}
